@@ -1,0 +1,21 @@
+//go:build verif
+
+// Contracts for package ast, read by /verif/bin/gvc (contract-based deductive verification).
+// This file contains comments only; it is compiled only under the build tag "verif".
+package ast
+
+// ---- C08: every DeepCopy preserves every field (one obligation per field, generated from go/types) ----
+
+//@ fields_copied (*Task).DeepCopy                 [C08]
+//@ fields_copied (*Cmd).DeepCopy                  [C08]
+//@ fields_copied (*Dep).DeepCopy                  [C08]
+//@ fields_copied (*For).DeepCopy                  [C08]
+//@ fields_copied (*Location).DeepCopy             [C08]
+//@ fields_copied (*Precondition).DeepCopy         [C08]
+//@ fields_copied (*Platform).DeepCopy             [C08]
+//@ fields_copied (*Requires).DeepCopy             [C08]
+//@ fields_copied (*VarsWithValidation).DeepCopy   [C08]
+//@ fields_copied (*Include).DeepCopy              [C08]
+//@ fields_copied (*Vars).DeepCopy                 [C08]
+//@   skipfield mutex a copy gets its own, unlocked mutex
+//@ fields_copied (*Matrix).DeepCopy               [C08]
